@@ -21,7 +21,7 @@ size_t UInt32ToStrBaseSign(uint32_t val, char * str, size_t len, int8_t base, sc
 static unsigned long long n_trips = 0, n_nontrivial = 0;
 
 #ifndef MC_FLAVOR_FAST
-enum { T_I8, T_U8, T_I16, T_U16, T_I32, T_U32, T_I64, T_U64, T_BOOL, T_TEXT, T_BLOCK, T_FLOAT, T_DOUBLE, T_AI32, T_AU32, T_AI64, T_AU64, T_AF, T_AD };
+enum { T_I8, T_U8, T_I16, T_U16, T_I32, T_U32, T_I64, T_U64, T_BOOL, T_TEXT, T_BLOCK, T_FLOAT, T_DOUBLE, T_AI32, T_AU32, T_AI64, T_AU64, T_AF, T_AD, T_BLOCK_INT };
 static int job, j_base;
 static uint64_t j_u; static const char * j_text; static const void * j_blk; static size_t j_len;
 static float j_f; static double j_d;
@@ -43,6 +43,7 @@ static scpi_result_t h_x(scpi_t * c) {
         case T_BOOL: SCPI_ResultBool(c, j_u ? TRUE : FALSE); break;
         case T_TEXT: SCPI_ResultText(c, j_text); break;
         case T_BLOCK: SCPI_ResultArbitraryBlock(c, j_blk, j_len); break;
+        case T_BLOCK_INT: SCPI_ResultArbitraryBlock(c, j_blk, j_len); SCPI_ResultInt32(c, -1000); SCPI_ResultText(c, "t"); break;
         case T_FLOAT: SCPI_ResultFloat(c, j_f); break;
         case T_DOUBLE: SCPI_ResultDouble(c, j_d); break;
         case T_AI32: { int32_t a[8]; for (i = 0; i < j_n; i++) a[i] = (int32_t) j_arr[i]; SCPI_ResultArrayInt32(c, a, j_n, SCPI_FORMAT_ASCII); break; }
@@ -66,6 +67,7 @@ static scpi_result_t h_y(scpi_t * c) {
         case T_BOOL: { scpi_bool_t v = 0; d_ok = SCPI_ParamBool(c, &v, TRUE); d_u = v ? 1 : 0; break; }
         case T_TEXT: d_ok = SCPI_ParamCopyText(c, d_text, sizeof d_text, &d_len, TRUE); break;
         case T_BLOCK: { const char * p = NULL; size_t l = 0; d_ok = SCPI_ParamArbitraryBlock(c, &p, &l, TRUE); if (d_ok) { d_len = l < sizeof d_text ? l : sizeof d_text; memcpy(d_text, p, d_len); d_len = l; } break; }
+        case T_BLOCK_INT: { const char * p = NULL; size_t l = 0; int32_t v = 0; char t[8]; size_t tl = 0; d_ok = SCPI_ParamArbitraryBlock(c, &p, &l, TRUE) && SCPI_ParamInt32(c, &v, TRUE) && SCPI_ParamCopyText(c, t, sizeof t, &tl, TRUE); if (d_ok) { d_len = l; memcpy(d_text, p, l < sizeof d_text ? l : sizeof d_text); d_u = (uint64_t) (int64_t) v; if (tl != 1 || t[0] != 't') d_ok = 0; } break; }
         case T_FLOAT: d_ok = SCPI_ParamFloat(c, &d_f, TRUE); break;
         case T_DOUBLE: d_ok = SCPI_ParamDouble(c, &d_d, TRUE); break;
         case T_AI32: { int32_t a[8]; d_ok = SCPI_ParamArrayInt32(c, a, 8, &d_n, SCPI_FORMAT_ASCII, j_n ? TRUE : FALSE); for (i = 0; i < d_n && i < 8; i++) d_arr[i] = (uint64_t) (int64_t) a[i]; break; }
@@ -295,6 +297,17 @@ int main(int argc, char ** argv) {
             mc_case_tag = "block"; mc_case_i[0] = L; mc_case_i[1] = b;
             if (!trip("block")) continue;
             if (d_len != (size_t) L || memcmp(d_text, blk, (size_t) L)) { mc_viol("c07/value/block", "block of %d bytes pattern %d came back with %d bytes", L, b, (int) d_len); continue; }
+            n_nontrivial++;
+        }
+        /* a block followed by further results in the same response (the separators depend on the block being counted) */
+        for (L = 0; L <= 40; L++) for (b = 0; b < 3; b++) {
+            static unsigned char blk2[64];
+            if (!MC_CASE()) continue;
+            for (i = 0; i < L; i++) blk2[i] = (unsigned char) (b == 0 ? ',' : b == 1 ? '"' : i);
+            job = T_BLOCK_INT; j_blk = blk2; j_len = (size_t) L;
+            mc_case_tag = "block+int"; mc_case_i[0] = L; mc_case_i[1] = b;
+            if (!trip("block-then-items")) continue;
+            if (d_len != (size_t) L || memcmp(d_text, blk2, (size_t) L) || (int64_t) d_u != -1000) { mc_viol("c07/value/block-then-items", "block of %d bytes, -1000, \"t\" -> [%s] -> block of %d bytes, %lld", L, mc_e(resp, respn), (int) d_len, (long long) (int64_t) d_u); continue; }
             n_nontrivial++;
         }
         /* floating point: mantissas d.ddd x every decimal exponent, powers of two, boundaries */
